@@ -85,7 +85,14 @@ func runEvictionSeq(ops []evOp) verdict {
 		if o.Op == "event" {
 			n := new(int)
 			ev := e.EvictionEvent(o.Slot)
-			unsubs = append(unsubs, ev.OnTrigger(func() { *n++ }))
+			slot := o.Slot
+			unsubs = append(unsubs, ev.OnTrigger(func() {
+				*n++
+				// consumers of an eviction event ask the state they belong to (what was evicted, the event of a neighbouring
+				// slot): the calls must return while the eviction that triggered the event is still in progress
+				_ = e.LastEvictedSlot()
+				_ = e.EvictionEvent(slot + 1)
+			}))
 			events = append(events, handedOut{o.Slot, ev, n})
 			if evicted && o.Slot <= last {
 				labels["event_for_evicted_slot"] = true
@@ -96,7 +103,11 @@ func runEvictionSeq(ops []evOp) verdict {
 			if evicted && o.Slot <= last {
 				labels["evict_not_monotone"] = true
 			}
-			e.Evict(o.Slot)
+			if !ctl.WithinHang(func() { e.Evict(o.Slot) }) {
+				v.Msg = fmt.Sprintf("%q did not return within %v (its event consumers call LastEvictedSlot / EvictionEvent of the same state)\n%s", o.String(), ctl.HangTimeout, ctl.Dump())
+				unsubs = nil // an unsubscribe would wait for the consumer that is stuck inside the eviction
+				break
+			}
 			if !evicted || o.Slot > last {
 				evicted, last = true, o.Slot
 			}
@@ -128,7 +139,7 @@ func evStrings(ops []evOp) []string {
 const checkEvictionSeq = "eviction_sequential"
 
 func TestEvictionSeq(t *testing.T) {
-	stats.Rule(checkEvictionSeq, "rapid draws 1-16 calls EvictionEvent(slot) / Evict(slot), slots 0..9 (non-negative integers only), Evict arguments not monotone on purpose, events requested before and after the eviction of their slot. Oracle after every call, for every event ever handed out: WasTriggered <=> evicted and slot <= highest evicted slot; its OnTrigger callback ran exactly that often; LastEvictedSlot(). Non-trivial = an event for a not yet evicted slot exists and something was evicted. Distinct by call list.")
+	stats.Rule(checkEvictionSeq, "rapid draws 1-16 calls EvictionEvent(slot) / Evict(slot), slots 0..9 (non-negative integers only), Evict arguments not monotone on purpose, events requested before and after the eviction of their slot; every OnTrigger consumer calls LastEvictedSlot and EvictionEvent of the same state (must not block the eviction). Oracle after every call, for every event ever handed out: WasTriggered <=> evicted and slot <= highest evicted slot; its OnTrigger callback ran exactly that often; LastEvictedSlot(). Non-trivial = an event for a not yet evicted slot exists and something was evicted. Distinct by call list.")
 	rapid.Check(t, func(rt *rapid.T) {
 		ops := rapid.SliceOfN(genEvOp(), 1, 16).Draw(rt, "ops")
 		v := runEvictionSeq(ops)
